@@ -1250,6 +1250,7 @@ struct ical_parser_s {
 };
 
 #define ICAL_EOP	((struct ical_vevent_s*)0x1U)
+#define ESCCPY_OVERLONG	((size_t)-1)
 
 static size_t
 esccpy(char *restrict tgt, size_t tz, const char *src, size_t sz)
@@ -1289,8 +1290,8 @@ esccpy(char *restrict tgt, size_t tz, const char *src, size_t sz)
 		}
 		/* not sure what to do with long lines */
 		if (UNLIKELY(ti >= tz)) {
-			/* ignore them */
-			return 0U;
+			/* ignore them, but say so */
+			return ESCCPY_OVERLONG;
 		}
 	}
 	tgt[ti] = '\0';
@@ -1573,7 +1574,11 @@ chop_more:
 		char *restrict sp = p->stash + p->six;
 		size_t sz = sizeof(p->stash) - p->six;
 
-		p->six += esccpy(sp, sz, BP, BZ);
+		if (UNLIKELY((sz = esccpy(sp, sz, BP, BZ)) == ESCCPY_OVERLONG)) {
+			/* cannot happen, BZ is less than what's left */
+			sz = 0U;
+		}
+		p->six += sz;
 		if (eol != NULL) {
 			/* means at least we've seen a \n up there
 			 * leave a mark in the stash buffer so the
@@ -1593,6 +1598,12 @@ chop_more:
 
 		/* copy to stash and unescape */
 		slen = esccpy(sp, slen, bp, llen);
+		if (UNLIKELY(slen == ESCCPY_OVERLONG)) {
+			/* the line doesn't fit, forget all of it, including
+			 * the bit in the stash which isn't a line of its own */
+			p->six = 0U;
+			goto chop_more;
+		}
 		/* store new stash pointer */
 		p->six += slen;
 
